@@ -36,7 +36,11 @@ def _enc_pairs(m):
 
 
 def _call(f):
-    return _call0(f)
+    """every exception class is an answer (compared with the model's), never a tool failure"""
+    try:
+        return f()
+    except Exception as e:  # noqa
+        return 'err ' + type(e).__name__
 
 
 def _as_src(s):
@@ -56,7 +60,7 @@ def cases_for_graph(ctx, a, rng, source_sets, full=True, transposes=False, forms
         form = forms.get(tuple(s)) if forms else None
         if form is None:
             form = rng.choice(['int', 'list']) if len(s) == 1 else rng.choice(['list', 'list', 'array'])
-        src_arg = s[0] if (len(s) == 1 and form == 'int') else (np.array(s) if form == 'array' else list(s))
+        src_arg = s[0] if (len(s) == 1 and form == 'int') else (np.array(s, dtype=int) if form == 'array' else list(s))
         trs = [False, True] if (full or transposes) else [False]
         for tr in trs:
             def f():
@@ -134,7 +138,7 @@ def cases_for_graph(ctx, a, rng, source_sets, full=True, transposes=False, forms
     return out
 
 
-def _bi_case(ctx, b, g, gdesc, sr2, sc2, use_source, tr, fb, out, malformed=False):
+def _bi_case(ctx, b, g, gdesc, sr2, sc2, use_source, tr, fb, out, malformed=False, as_array=False):
     """One get_distances (and, untransposed, one get_shortest_path) call on a biadjacency / square matrix with the
     given row sources (passed as `source` or `source_row`), column sources, transposition and flag."""
     from sknetwork.path import get_distances, get_shortest_path
@@ -155,6 +159,9 @@ def _bi_case(ctx, b, g, gdesc, sr2, sc2, use_source, tr, fb, out, malformed=Fals
         kw['source'], kw['source_row'] = list(use_source[0]), list(use_source[1])
         src_tok, sr_tok = enc_list(kw['source']), enc_list(kw['source_row'])
     tag = 'malformed' if malformed else 'routing'
+    if as_array:
+        kw = {k: np.array(v, dtype=int) for k, v in kw.items()}
+    jkw = {k: [int(x) for x in v] for k, v in kw.items()}
 
     def f():
         d = get_distances(b, transpose=tr, force_bipartite=fb, **kw)
@@ -164,17 +171,23 @@ def _bi_case(ctx, b, g, gdesc, sr2, sc2, use_source, tr, fb, out, malformed=Fals
     impl = _call(f)
     run = 'c10.dist %s %s %s %s %s %s' % (g, src_tok, sr_tok, sc_tok, enc_bool(tr), enc_bool(fb))
     spec = None
-    block_src = (kw.get('source') or kw.get('source_row') or []) + [r_lim + x for x in (sc2 or [])]
+    block_src = (jkw.get('source') or jkw.get('source_row') or []) + [r_lim + x for x in (sc2 or [])]
     if impl.startswith('ok p '):
         dd = impl.split(' ')
         spec = 'c10.spec_bdist %s %s %s %s %s' % (g, enc_bool(tr), enc_list(block_src), dd[2], dd[3])
     elif impl.startswith('ok s '):
-        spec = 'c10.spec_dist %s %s 0 %s %s' % (g, enc_bool(tr), enc_list(kw.get('source') or []), impl[5:])
+        spec = 'c10.spec_dist %s %s 0 %s %s' % (g, enc_bool(tr), enc_list(jkw.get('source') or []), impl[5:])
     else:
         # a refusal: the specification of the routing says which one is due (or that none is)
         spec = 'c10.spec_route %d %d %s %s %s %s %s %s' % (nr, nc, src_tok, sr_tok, sc_tok, enc_bool(tr), enc_bool(fb),
                                                          impl[4:] if impl.startswith('err ') else impl)
-    desc = {'f': 'get_distances', 'biadjacency': gdesc, 'kw': kw, 'transpose': tr, 'force_bipartite': fb}
+    desc = {'f': 'get_distances', 'biadjacency': gdesc, 'kw': jkw, 'transpose': tr, 'force_bipartite': fb, 'as_array': as_array}
+    if impl.startswith('ok'):
+        # the routing specification also judges what was accepted (plain / bipartite answer)
+        out.append(Case(('broute', g, src_tok, sr_tok, sc_tok, tr, fb), {'entry': 'get_distances', 'bipartite': True, 'stream': tag, 'line': 'route'},
+                        None, impl, 'c10.spec_route %d %d %s %s %s %s %s %s' % (nr, nc, src_tok, sr_tok, sc_tok, enc_bool(tr), enc_bool(fb),
+                                                                             'ok-p' if impl.startswith('ok p') else 'ok-s'),
+                        False, desc))
     out.append(Case(('bdist', g, src_tok, sr_tok, sc_tok, tr, fb),
                     {'entry': 'get_distances', 'bipartite': True, 'transpose': tr, 'stream': tag}, run, impl, spec,
                     b.nnz > 0 and impl.startswith('ok'), desc))
@@ -188,14 +201,14 @@ def _bi_case(ctx, b, g, gdesc, sr2, sc2, use_source, tr, fb, out, malformed=Fals
         spec = None
         if impl.startswith('ok '):
             bip = fb or nr != nc or sr_tok != '_' or sc_tok != '_'
-            srcs = block_src if bip else (kw.get('source') or [])
+            srcs = block_src if bip else (jkw.get('source') or [])
             spec = 'c10.spec_path %s 0 %d %s %s %s' % (g, 1 if bip else 0, enc_list(srcs), impl.split(' ')[1],
                                                       impl.split(' ')[2])
         out.append(Case(('bpath', g, src_tok, sr_tok, sc_tok, fb),
                         {'entry': 'get_shortest_path', 'bipartite': True, 'force_bipartite': fb, 'stream': tag,
                          'via': 'source' if src_tok != '_' else 'source_row/col'}, run, impl, spec,
                         b.nnz > 0 and impl.startswith('ok'),
-                        {'f': 'get_shortest_path', 'biadjacency': gdesc, 'kw': kw, 'force_bipartite': fb}))
+                        {'f': 'get_shortest_path', 'biadjacency': gdesc, 'kw': jkw, 'force_bipartite': fb, 'as_array': as_array}))
 
 
 def cases_for_bigraph(ctx, b, rng, full=True, only=None):
@@ -208,7 +221,7 @@ def cases_for_bigraph(ctx, b, rng, full=True, only=None):
     out = []
     if only is not None:       # replay of one recorded call
         _bi_case(ctx, b, g, gdesc, only.get('sr'), only.get('sc'), only.get('use_source', False), only['tr'], only['fb'],
-                 out, malformed=only.get('malformed', False))
+                 out, malformed=only.get('malformed', False), as_array=only.get('as_array', False))
         return out
     combos = []
     for tr in (False, True):
@@ -225,7 +238,7 @@ def cases_for_bigraph(ctx, b, rng, full=True, only=None):
     if not full:
         combos = rng.sample(combos, min(len(combos), 8))
     for sr, sc, use_source, tr, fb in combos:
-        _bi_case(ctx, b, g, gdesc, sr, sc, use_source, tr, fb, out)
+        _bi_case(ctx, b, g, gdesc, sr, sc, use_source, tr, fb, out, as_array=rng.random() < 0.3)
     # malformed stream: out-of-range indices on either side, source together with source_row, nothing at all
     bad = []
     for tr in (False, True):
@@ -335,6 +348,28 @@ def build_cases(ctx):
             cases += cases_for_graph(ctx, b, rng, subs, full=True)
         cases += cases_for_bigraph(ctx, b, rng, full=True)
         ctx.count('degenerate:%dx%d' % shape)
+    # bipartite inputs beyond the small exhaustive shapes: weighted (negative, fractional, stored zeros), unsorted rows,
+    # dtypes, a long bipartite path (distances far beyond any small constant), duplicates (summed by the block construction)
+    for _ in range(10 if quick else 120):
+        nr, nc = rng.randint(2, 7), rng.randint(2, 7)
+        es = [(i, j) for i in range(nr) for j in range(nc) if rng.random() < rng.choice([0.2, 0.4])]
+        b = _mk(nr, es, _weights(rng, len(es), rng.choice(['ones', 'mixed', 'mixed'])), m=nc)
+        if rng.random() < 0.5:
+            b = graphs.unsorted_copy(b, rng)
+        cases += cases_for_bigraph(ctx, b, rng, full=False)
+        ctx.count('bipartite:random')
+    k = rng.randint(8, 12) if quick else rng.randint(14, 20)
+    es = [(i, i) for i in range(k)] + [(i + 1, i) for i in range(k - 1)]      # row i - col i - row i+1 - ... : a path of 2k nodes
+    bp = _mk(k, es, [rng.choice([1, 2, -1, 0.5]) for _ in es], m=k)
+    g = enc_csr(bp)
+    gd = {'shape': [k, k], 'indptr': bp.indptr.tolist(), 'indices': bp.indices.tolist(), 'data': bp.data.tolist(), 'dtype': str(bp.dtype)}
+    for sr, sc, us, tr, fb in (([0], None, False, False, False), ([0], None, True, False, True), (None, [k - 1], False, True, False),
+                               ([0], [k - 1], False, False, True)):
+        _bi_case(ctx, bp, g, gd, sr, sc, us, tr, fb, cases)
+    ctx.count('bipartite:long-path')
+    dupb = sparse.csr_matrix((np.array([1., -1., 2., 1., 1., 3.]), np.array([1, 1, 2, 0, 0, 2]), np.array([0, 3, 5, 6])), shape=(3, 3))
+    cases += cases_for_bigraph(ctx, dupb, rng, full=True)
+    ctx.count('degenerate:duplicates-bipartite')
     # duplicate stored entries, one pair cancelling (+1, -1 at the same position), indices unsorted
     dup = sparse.csr_matrix((np.array([1., -1., 2., 1., 1.]), np.array([1, 1, 2, 0, 0]), np.array([0, 3, 5, 5])), shape=(3, 3))
     cases += cases_for_graph(ctx, dup, rng, [[0], [1], [0, 2]], full=True)
@@ -420,7 +455,8 @@ def _cases_of(ctx, case, neighbourhood=True):
         both = 'source' in kw and 'source_row' in kw
         only = {'sr': kw.get('source', kw.get('source_row')) if not both else None, 'sc': kw.get('source_col'),
                 'use_source': ((kw['source'], kw['source_row']) if both else ('source' in kw)),
-                'tr': bool(case.get('transpose', False)), 'fb': bool(case.get('force_bipartite', False))}
+                'tr': bool(case.get('transpose', False)), 'fb': bool(case.get('force_bipartite', False)),
+                'as_array': bool(case.get('as_array', False))}
         cs += cases_for_bigraph(ctx, b, rng, only=only)
         if neighbourhood:
             cs += cases_for_bigraph(ctx, b, rng, full=True)
